@@ -154,6 +154,14 @@ def make_case(rng, ctx):
     orientation = "ccw" if rng.random() < 0.5 else "cw"
     if orientation == "cw":
         v = v[::-1].copy()
+    # The constructor takes the normal from the FIRST corner (v0, v1, v2); a straight first corner is the known
+    # C15 finding `Polygon.__init__:rejects-valid:straight-first-corner`, not a C04 matter: start the same cycle
+    # at a vertex whose corner is clearly not straight (a cyclic shift does not change the polygon).
+    for _ in range(len(v)):
+        e1, e2 = v[1] - v[0], v[2] - v[1]
+        if np.linalg.norm(np.cross(e1, e2)) > 1e-3 * np.linalg.norm(e1) * np.linalg.norm(e2):
+            break
+        v = np.roll(v, -1, axis=0)
     mode = ["default", "same", "opposite"][int(rng.integers(3))]
     normal = None
     if mode == "same":
